@@ -265,3 +265,4 @@ Contract(
     props=("C15",), native={"skip": True},
     notes="requires nx >= 2: with a single column E (+1) and N (+nx) coincide; polygonize adds a column for that case",
 )
+
